@@ -134,8 +134,10 @@ def run(ctx):
     nsc = 24 if ctx.quick else 400
     per_proc = 8
     total_ev = 0; ntr = 0; samples = []
-    sid = 0
+    sid = 0; run_failures = 0
     while sid < nsc:
+        if run_failures >= 2:
+            ctx.log("pool hung/died in %d scenario batches (reported): the remaining scenarios are not run" % run_failures); break
         texts = []; metas = []
         for _ in range(per_proc):
             sid += 1
@@ -161,8 +163,15 @@ def run(ctx):
             if hang and any(e["e"] == "call.shutdown" for e in evs[max(0, k - 400):k]) and hang[0]["e"] in ("Crash", "Hang"):
                 ctx.log("teardown %s observed (C11 territory), trace validated up to it" % hang[0]["e"])
                 evs = evs[:k + 1]
+            elif hang:
+                # the pool stopped making progress (or died) while messages were in flight, twice in a row with the same
+                # scenarios: that is the code under test, not the rig - a verdict, the batch is not validated further
+                ctx.fail("run:tp_drv:%s:%s" % (hang[0]["e"], hang[0].get("where", hang[0].get("sig", ""))),
+                         out[-1500:] + "\n" + json.dumps(evs[max(0, k - 25):k + 1], indent=0), {"scenario": "".join(texts), "seed": ctx.seed + sid})
+                run_failures += 1
+                continue
             else:
-                raise common.Infra("tp_drv failed rc=%s hang=%s\n%s" % (rc, hang[:2], out[-2000:]))
+                raise common.Infra("tp_drv failed rc=%s\n%s" % (rc, out[-2000:]))
         from rig.checks import c11
         ok, info, r = tp.validate(ctx, c11.prep(evs), d, "c05_%d" % sid, c11.KEEP)
         total_ev += info["events"]; ntr += len(texts)
